@@ -202,6 +202,21 @@ RotorClauses(e) ==
            \cup Chk(Close(e.U, <<15, -1>>, 8) /\ Close(e.Cv, <<15, -1>>, 8), "RigidRotorTextbook")
            \cup Chk(CloseIn(e.S, Add(e.lq, <<15, -1>>), {e.lq, One}, 6), "RigidRotorTextbookS")
 
+\* symmetry numbers given as a documented point-group label (the table of RigidRotor's docstring, held here):
+\* e.label, e.st ("ok" | "raise"), e.sigma (the number the object holds), e.q / e.qnum (partition function of
+\* the labelled rotor and of its twin built with the number).  An undocumented label (e.label not in the
+\* table) is refused.
+PointGroups == [C1 |-> 1, Cs |-> 1, C2 |-> 2, C2v |-> 2, C3v |-> 3, Cinfv |-> 1, D2h |-> 4, D3h |-> 6, D5h |-> 10,
+                Dinfh |-> 2, D3d |-> 6, Td |-> 12, Oh |-> 24]
+PointGroupClauses(e) ==
+   IF e.label \in DOMAIN PointGroups
+   THEN Chk(e.st = "ok", "PointGroupLabelAccepted")
+        \cup (IF e.st = "ok"
+              THEN Chk(Close(e.sigma, I(PointGroups[e.label]), 8), "PointGroupSymmetryNumber")
+                   \cup Chk(e.q = e.qnum, "PointGroupLabelEqualsNumber")
+              ELSE {})
+   ELSE Chk(e.st = "raise", "UnknownPointGroupRefused")
+
 \* ideal-gas translation: st = Sackur-Tetrode entropy (sensor from M, T, P, n)
 TransClauses(e) ==
    LET n2 == Mul(Half, I(e.n))
@@ -234,6 +249,7 @@ Clauses(e) ==
      [] e.ev = "debye" -> DebyeClauses(e)
      [] e.ev = "qrrho" -> QrrhoClauses(e)
      [] e.ev = "rotor" -> RotorClauses(e)
+     [] e.ev = "pointgroup" -> PointGroupClauses(e)
      [] e.ev = "trans" -> TransClauses(e)
      [] e.ev = "elec" -> ElecClauses(e)
      [] e.ev = "geometry" -> GeomClauses(e)
